@@ -23,6 +23,13 @@ PENDING = {
     "C20": "check designed (DESIGN.md sect. 4, engine S) but not built yet; not claimed until it runs",
 }
 TEXT = {
+    "C09": {
+        "engine": "S",
+        "design_ref": "DESIGN.md sect. 4 (C09), sect. 3.4",
+        "technique": "deterministic simulation with fault injection: instrumented ReadDelimitedMessage (reader goroutine + timeout select) under the seeded scheduler and fake clock over a simulated stream (seeded chunking, arrival gaps incl. exactly-at-timeout, cut at any byte, EOF/eof-with-data/I/O error/stall, io.Pipe-like zero-length reads); oracle = reference model of the frame sequence predicting result, error class, return instant and timeout progress text; codecs checked under seeded chunking and cuts; shrinking + exact replay",
+        "level_text": "Seeded exploration of message sequences x byte-stream partitions x truncation points x oversize prefixes x stall points on the current tree: the reference model walks the frames with the stream's own arrival times, so every returned message, EOF vs unexpected-EOF, oversize rejection (no further read, no allocation), timeout instant (exact on the fake clock) and the 'read k/n bytes' figures are checked on every run; binary and JSON stream codecs are checked for round trip and truncation reporting. Evidence, not proof.",
+        "level_note": "Trusted: simrt/simio, synctest clock. Boundary (data arrives exactly at the timeout instant): either outcome accepted. JSON messages are objects (as all protocol messages are).",
+    },
     "C04": {
         "engine": "S",
         "design_ref": "DESIGN.md sect. 4 (C04), sect. 3.1-3.5",
